@@ -15,7 +15,8 @@ Tie (level 1, no parser / std schema in this sandbox):
   D  id stream: REAL `_get_collection_type_id/_get_object_shape_id/_get_set_type_id`
      vs uuid5(model `idPreimage`), and equal/unequal ids vs equal/unequal keys.
 Oracle S (real code only): real bytes -> real decoder -> the description of the
-type; >=2.0 length prefixes frame the stream; equal ids => identical
+type; >=2.0 length prefixes frame the stream (python walker and the Lean `frames`
+of `C14_frames` / `C14_skip`, driver op F, on the real bytes); equal ids => identical
 descriptors; different structure => different ids.
 """
 from __future__ import annotations
@@ -31,6 +32,9 @@ REQUIRED = [
     'EdbVerif.C14.C14_prefix_block', 'EdbVerif.C14.C14_prefix', 'EdbVerif.C14.C14_dedupe',
     'EdbVerif.C14.C14_context', 'EdbVerif.C14.C14_id_inj', 'EdbVerif.C14.C14_id_collision',
     'EdbVerif.C14.C14_anno_rejected',
+    # framing of the >= 2.0 stream by its length prefixes (third session)
+    'EdbVerif.C14.C14_body_size', 'EdbVerif.C14.C14_frame_block', 'EdbVerif.C14.C14_frames',
+    'EdbVerif.C14.C14_skip',
 ]
 
 CARDS = {'NO_RESULT': 0x6e, 'AT_MOST_ONE': 0x6f, 'ONE': 0x41, 'MANY': 0x6d, 'AT_LEAST_ONE': 0x4d}
@@ -1133,6 +1137,15 @@ class Run:
                 problems.append('>=2.0 length prefixes do not frame the stream')
             elif nb != want:
                 problems.append(f'{nb} blocks for {want} distinct descriptors')
+            # the walker the framing theorems (`C14_frames`, `C14_skip`) are about — Lean `frames`,
+            # driver op F — run on the REAL bytes: same verdict and block count as `walk_frames`
+            want_f = 'err' if nb is None else f'ok {nb}'
+            if real:
+                self.ask(f'F {real.hex()}',
+                         lambda out, want_f=want_f, det=det, line=line: None if out == want_f else
+                         self.disagree('frames:' + line[:200], f'Lean `frames` on the real bytes says '
+                                       f'{out[:40]!r}, the harness walker {want_f!r}', det))
+                self.count('A:lean-frames-on-real-bytes')
         got, perr = self.real_parse(full, pv)
         if len(trees) > 1 and root.id in {u.id for t in trees[:-1] for u in subtrees(t)}:
             self.count('A:derive-root-already-described')
